@@ -144,11 +144,20 @@ class RecursiveDescent(object):
 
     def next(self):
         """Get next token."""
+        if getattr(self, "_pending", None):
+            # a token handed back by unget()
+            self.token = self._pending.pop()
+            return
         try:
             self.token = next(self.tokenizer)
         except StopIteration:
             self.token = Token("EOF", None, 0, 0)
         self.info("next", self.token)
+
+    def unget(self, token):
+        """Hand the current token back and make token current again."""
+        self._pending = [self.token]
+        self.token = token
 
     def have(self, typ):
         """Peek at token, if found consume."""
@@ -650,15 +659,35 @@ class Parser(ExprParser):
             self.info("declarator ID:", self.token.value)
             self.next()
         elif self.token.typ == "LPAREN":  # (*var)
+            lparen = self.token
             self.next()
-            node.func = self.declarator()
-            self.mustbe("RPAREN")
+            if self.starts_declarator():
+                node.func = self.declarator()
+                self.mustbe("RPAREN")
+            else:
+                # '(' opens a parameter list, not a nested declarator:
+                # int (), T *(int), vector<int> (string)
+                self.unget(lparen)
+                if not node.pointer:
+                    node = None
         else:
             if not node.pointer:
                 node = None
 
         self.exit("declarator", str(node))
         return node
+
+    def starts_declarator(self):
+        """Can a declarator start at the current token (just after a '(')?
+        Otherwise the '(' opens a parameter list: it is followed by ')',
+        a type specifier or a name which is already known (a type).
+        """
+        typ = self.token.typ
+        if typ in ("STAR", "REF", "LPAREN"):
+            return True
+        if typ == "ID":
+            return not self.namespace.unqualified_lookup(self.token.value)
+        return False
 
     def pointer(self):
         """
